@@ -399,7 +399,10 @@ func checkCanonical(src []byte, gen, pkgName, rendered, goVersion, modPath strin
 	if f.Name.Name != pkgName {
 		return fmt.Errorf("declares package %q, want %q", f.Name.Name, pkgName)
 	}
-	// (4) same tokens, same order, same comments
+	// (4) same tokens, same order, same comments (skipped when the rendered bytes are not known: real generators)
+	if rendered == "" {
+		return checkFixedPoints(src, goVersion, modPath)
+	}
 	off, _, _, err := bodyOffset(src)
 	if err != nil {
 		return fmt.Errorf("cannot locate the body: %v", err)
@@ -423,6 +426,10 @@ func checkCanonical(src []byte, gen, pkgName, rendered, goVersion, modPath strin
 	if gotCmt != wantCmt {
 		return fmt.Errorf("comments differ (blanks ignored): file %q, rendered %q", clip(gotCmt, 300), clip(wantCmt, 300))
 	}
+	return checkFixedPoints(src, goVersion, modPath)
+}
+
+func checkFixedPoints(src []byte, goVersion, modPath string) error {
 	// (5) gofmt fixed point
 	fm, err := format.Source(src)
 	if err != nil {
@@ -494,6 +501,57 @@ func c1NonTrivial(c c1Case) bool {
 	return false
 }
 
+// ---- the real generators' output is canonical as well (no token comparison: what they render is not recorded) ----
+
+type c1RealCase struct {
+	ModCase
+	Real []string `json:"real"`
+}
+
+func genC01Real(t *rapid.T) c1RealCase {
+	o := modOpts{gens: []string{"zzz"}, minPkgs: 1, maxPkgs: 3, locals: true, tagDensity: 9, pkgTagBias: 9, maxDecls: 6, imports: true}
+	c := c1RealCase{ModCase: genMod(t, o)}
+	c.Real = rapid.SampledFrom([][]string{{"runtimedoc"}, {"deepcopy"}, {"defaulter"}, {"runtimedoc", "deepcopy", "defaulter"}}).Draw(t, "real")
+	return c
+}
+
+func oracleC01Real(c c1RealCase) error {
+	dir := tempModule(&c.Mod)
+	defer os.RemoveAll(dir)
+	globals := map[string][]string{}
+	for _, r := range c.Real {
+		globals["gengo:"+r] = []string{""}
+	}
+	var entries []string
+	for _, p := range c.Mod.Pkgs {
+		entries = append(entries, entry(p.Dir))
+	}
+	res := script.Run(script.RunSpec{Dir: dir, Entrypoints: entries, Globals: globals, Base: "zz_generated", Real: c.Real})
+	if res.LoadErr != "" {
+		panic("harness: synthetic module does not load: " + res.LoadErr)
+	}
+	if res.Panic != "" {
+		return fmt.Errorf("Execute with %v panics: %s", c.Real, res.Panic)
+	}
+	if res.Failed {
+		return nil // the statement covers runs that return nil
+	}
+	for i := range c.Mod.Pkgs {
+		p := &c.Mod.Pkgs[i]
+		for _, g := range c.Real {
+			fn := filepath.Join(dir, filepath.FromSlash(p.Dir), "zz_generated."+g+".go")
+			src, err := os.ReadFile(fn)
+			if err != nil {
+				continue
+			}
+			if err := checkCanonical(src, g, p.Name, "", c.Mod.Go, c.Mod.Path); err != nil {
+				return fmt.Errorf("%s/zz_generated.%s.go (real generator): %w\n--- file ---\n%s", p.Dir, g, err, clip(string(src), 2500))
+			}
+		}
+	}
+	return nil
+}
+
 func TestC01(t *testing.T) {
 	r := ev.Begin(t, ev.Meta{
 		ID:    "C01",
@@ -515,5 +573,11 @@ func TestC01(t *testing.T) {
 		Name: "files", Gen: genC01, Oracle: oracleC01, NonTrivial: c1NonTrivial,
 		Classes: func(c c1Case) []string { return c.Features },
 		Budget:  ev.Budget{Quick: 150, Thorough: 2500}, MinNonTrivial: 0.5,
+	})
+	ev.Search(r, ev.Sub[c1RealCase]{
+		Name: "real", Gen: genC01Real, Oracle: oracleC01Real,
+		NonTrivial: func(c c1RealCase) bool { return len(c.Mod.Pkgs) >= 1 },
+		Classes:    func(c c1RealCase) []string { return c.Real },
+		Budget:     ev.Budget{Quick: 40, Thorough: 600},
 	})
 }
